@@ -107,11 +107,22 @@ def parseBCall (s : String) : Option BCall :=
   else if s == "restart" then some .restart else none
 
 def parseBTid (s : String) : Option BlockWait.Tid :=
-  if s == "m" then some .main else if s == "x" then some .x else none
+  if s == "m" then some .main else if s == "x" then some .x
+  else if s.startsWith "f" then
+    match (s.drop 1).toString.toNat? with
+    | some (n + 1) => some (.f n)
+    | _ => none
+  else none
+
+/-- foreign threads of the application: `n` = non-daemon, `d` = daemon; `-` = none -/
+def parseForeign (s : String) : Option (List Bool) :=
+  if s == "-" then some [] else
+  s.toList.mapM fun ch => if ch == 'n' then some false else if ch == 'd' then some true else none
 
 def mLabel : MPc → String
   | .b10 => "Bus.block+10" | .b11 => "Bus.block+11" | .w2 => "Bus.wait+2" | .w4 => "Bus.wait+4"
   | .w5 => "Bus.wait+5" | .w6 => "Bus.wait+6" | .tail => "tail" | .done => "done"
+  | .jn => "join-loop" | .jw => "join!" | .ex => "if-execv" | .dx => "do-execv"
 
 def xLabel : XPc → String
   | .s2 => "Bus.stop+2" | .s3 => "Bus.stop+3" | .s4 => "Bus.stop+4" | .s5 => "Bus.stop+5"
@@ -299,15 +310,16 @@ def admitM (f : List String) : Option String :=
   | _ => none
 
 def showTidB : BlockWait.Tid → String
-  | .main => "m" | .x => "x"
+  | .main => "m" | .x => "x" | .f k => s!"f{k + 1}"
 
 def admitB (f : List String) : Option String :=
   match f with
-  | [calls, trace] => do
+  | [calls, foreign, trace] => do
     let cs ← (splitList calls).mapM parseBCall
+    let fr ← parseForeign foreign
     let (o0, tr) ← parseTrace parseBTid some trace
     pure (answer BlockWait.step BlockWait.enabled (BlockWait.obsStr cs.length) id BlockWait.keyStr showTidB
-      (BlockWait.init .started cs) o0 tr)
+      (BlockWait.init .started cs fr) o0 tr)
   | _ => none
 
 def showTidT : ThreadMgr.Tid → String
